@@ -55,7 +55,11 @@ def make_conn(rng, table, code, ver, hist, **force):
     hs13 = rng.choice([[4], [1, 3], [2, 2], [1, 1, 1, 1]])
     # TLS 1.3: every third connection fragments the server's encrypted flight across records at arbitrary bytes (RFC 8446 5.1)
     cuts13 = force.get("hs13_cuts", [rng.randrange(1, 400) for _ in range(rng.choice([1, 2, 3, 6]))] if (ver == "TLS13" and rng.randrange(3) == 0) else None)
-    c.handshake(shape=shape, server_group=sgroup, tickets=tickets, hs13_group=hs13, pad13=pad13 if ver == "TLS13" else 0, hs13_cuts=cuts13)
+    # TLS <= 1.2, full handshake: every fourth connection fragments the server's plaintext flight behind the ServerHello (RFC 5246 6.2.1)
+    cuts12 = force.get("hs12_cuts", [rng.randrange(1, 720) for _ in range(rng.choice([1, 2, 4]))] if (ver != "TLS13" and shape == "full" and rng.randrange(4) == 0) else None)
+    c.handshake(shape=shape, server_group=sgroup, tickets=tickets, hs13_group=hs13, pad13=pad13 if ver == "TLS13" else 0, hs13_cuts=cuts13, hs12_cuts=cuts12)
+    if ver != "TLS13" and shape == "full":
+        hist["hs12_fragmented=%s" % (cuts12 is not None)] += 1
     if ver == "TLS13":
         hist["hs13_fragmented=%s" % (cuts13 is not None)] += 1
     nrec = force.get("nrec", rng.choice([0, 1, 2, 3, 5, 8, 20]))
